@@ -1,4 +1,5 @@
 import QM.QuoteLemmas
+import QM.ConvExec
 import QM.UnquoteLemmas
 /-! # C01 — quoted podman command lines split back into exactly the intended arguments
 
@@ -32,3 +33,49 @@ theorem C01_storable (ws : List Str) (hw : ∀ w ∈ ws, ∀ c ∈ w, c ≠ '\x0
 theorem C01_empty_kept : quoteWords [['a'], [], ['b']] = ['a', ' ', '"', '"', ' ', 'b'] := by decide
 
 end P
+
+/-! ### every converter: the Exec lines of the generated service
+
+`Cv.ExecRendered` (QM/ConvExec.lean) is a frame calculus over the converter models: `add`, `set`, `prepend` never write an
+Exec key, `add_raw` is only called with `quote_words` output.  Hence every `Exec*=` entry of the generated [Service] is
+either one of the user's own [Service] entries (verbatim, C07) or the rendering of an argument vector — which, by
+`C01_roundtrip`, systemd splits into exactly that vector. -/
+namespace Cv
+open MM
+
+def ExecLinesRendered (u svc : SUnit) : Prop :=
+  ∀ e ∈ entriesOf svc (s "Service"), e.1 ∈ execKeys →
+    e ∈ entriesOf u (s "Service") ∨
+    ∃ cmd, e.2 = P.quoteWords cmd ∧ ((∀ w ∈ cmd, ∀ c ∈ w, c ≠ '\x00') → P.splitAll P.execFlags e.2 = some cmd)
+
+theorem rendered_splits {e : Str × Str} (h : ∃ cmd, e.2 = P.quoteWords cmd) :
+    ∃ cmd, e.2 = P.quoteWords cmd ∧ ((∀ w ∈ cmd, ∀ c ∈ w, c ≠ '\x00') → P.splitAll P.execFlags e.2 = some cmd) := by
+  obtain ⟨cmd, hc⟩ := h
+  exact ⟨cmd, hc, fun hw => by rw [hc]; exact P.C01_roundtrip cmd hw⟩
+
+theorem C01_container_exec_lines (E : Env) (path : Str) (u svc : SUnit) (link : Option (Str × Str)) (hnd : (u.map Prod.fst).Nodup)
+    (h : fromContainer E path u = some (.ok (svc, link))) : ExecLinesRendered u svc := fun e he hk =>
+  (execs_of (startService path u) u svc _ _ (by decide) (entriesOf_startService_ne path u hnd _ (by decide)) (by decide)
+    (execs_fromContainer E path u svc link h) e he hk).imp id rendered_splits
+theorem C01_pod_exec_lines (E : Env) (path : Str) (u svc : SUnit) (cs : List Str) (hnd : (u.map Prod.fst).Nodup)
+    (h : fromPod E path u cs = .ok svc) : ExecLinesRendered u svc := fun e he hk =>
+  (execs_of (startService path u) u svc _ _ (by decide) (entriesOf_startService_ne path u hnd _ (by decide)) (by decide)
+    (execs_fromPod E path u svc cs h) e he hk).imp id rendered_splits
+theorem C01_kube_exec_lines (E : Env) (path : Str) (u svc : SUnit) (hnd : (u.map Prod.fst).Nodup)
+    (h : fromKube E path u = .ok svc) : ExecLinesRendered u svc := fun e he hk =>
+  (execs_of (startService path u) u svc _ _ (by decide) (entriesOf_startService_ne path u hnd _ (by decide)) (by decide)
+    (execs_fromKube E path u svc h) e he hk).imp id rendered_splits
+theorem C01_volume_exec_lines (E : Env) (path : Str) (u svc : SUnit) (n : Str) (hnd : (u.map Prod.fst).Nodup)
+    (h : fromVolume E path u = .ok (svc, n)) : ExecLinesRendered u svc := fun e he hk =>
+  (execs_of (startService path u) u svc _ _ (by decide) (entriesOf_startService_ne path u hnd _ (by decide)) (by decide)
+    (execs_fromVolume E path u svc n h) e he hk).imp id rendered_splits
+theorem C01_network_exec_lines (E : Env) (path : Str) (u svc : SUnit) (n : Str) (hnd : (u.map Prod.fst).Nodup)
+    (h : fromNetwork E path u = .ok (svc, n)) : ExecLinesRendered u svc := fun e he hk =>
+  (execs_of (startService path u) u svc _ _ (by decide) (entriesOf_startService_ne path u hnd _ (by decide)) (by decide)
+    (execs_fromNetwork E path u svc n h) e he hk).imp id rendered_splits
+theorem C01_build_exec_lines (E : Env) (path : Str) (u svc : SUnit) (hnd : (u.map Prod.fst).Nodup)
+    (h : fromBuild E path u = .ok svc) : ExecLinesRendered u svc := fun e he hk =>
+  (execs_of (buildStart path u) u svc _ _ (by decide) (entriesOf_buildStart_ne path u hnd _ (by decide)) (by decide)
+    (execs_fromBuild E path u svc h) e he hk).imp id rendered_splits
+
+end Cv
